@@ -436,14 +436,34 @@ def merge_into(out, rec, component):
     c['oracle_failures'] += rec['nfail']
 
 
+class _Safe:
+    """worker wrapper: an exception in a worker comes back as a value (a dying worker must not hang the pool)"""
+
+    def __init__(self, fn):
+        self.fn = fn
+
+    def __call__(self, j):
+        try:
+            return ('ok', self.fn(j))
+        except BaseException as e:  # noqa: BLE001
+            import traceback
+            return ('err', '%s: %s\n%s' % (type(e).__name__, e, traceback.format_exc()[-1500:]))
+
+
 def pmap(fn, jobs, nproc=None):
     import multiprocessing as mp
     nproc = nproc or NPROC
+    safe = _Safe(fn)
     if len(jobs) <= 1 or nproc == 1:
-        return [fn(j) for j in jobs]
-    ctx = mp.get_context('fork')
-    with ctx.Pool(min(nproc, len(jobs))) as p:
-        return p.map(fn, jobs, chunksize=1)
+        res = [safe(j) for j in jobs]
+    else:
+        ctx = mp.get_context('fork')
+        with ctx.Pool(min(nproc, len(jobs))) as p:
+            res = p.map_async(safe, jobs, chunksize=1).get(timeout=7000)
+    for kind, v in res:
+        if kind == 'err':
+            raise InfraError('worker failed: ' + v)
+    return [v for _, v in res]
 
 
 def kernel_crosscheck(out, sample_cases, tag):
